@@ -1006,13 +1006,23 @@ class AirTouch4(pyairtouch.api.AirTouch):
                 )
                 self._initialised_event.set()
 
+            # Status updates are also applied during the remainder of the
+            # initialisation once the ACs are known. An unsolicited partial update
+            # may have been taken as the answer to the status request, in which
+            # case the complete answer arrives one state later.
             case ac_status_msg.AcStatusMessage(ac_statues) if (
-                self._state == _AirTouchState.CONNECTED
+                self._state
+                in (
+                    _AirTouchState.CONNECTED,
+                    _AirTouchState.INIT_AC_TIMER_STATUS,
+                    _AirTouchState.INIT_GROUP_STATUS,
+                )
             ):
                 await self._process_ac_status_message(ac_statues)
 
             case ac_timer_status_msg.AcTimerStatusMessage(ac_timer_statuses) if (
-                self._state == _AirTouchState.CONNECTED
+                self._state
+                in (_AirTouchState.CONNECTED, _AirTouchState.INIT_GROUP_STATUS)
             ):
                 await self._process_ac_timer_status_message(ac_timer_statuses)
 
